@@ -664,3 +664,65 @@ func c19DuplicateVerdict(c *Ctx, dup *ssa.Function) {
 		c.bad(construct, reports[0].Pos(), strings.Join(bad, "; "))
 	}
 }
+
+// failureNotReturned: "" when fn tests the error value against nil and, from the non-nil side of every such test, every
+// way on leads to a return whose last result is not the nil constant, without rejoining code that the nil side also
+// reaches. Otherwise what is wrong.
+func failureNotReturned(p *Prog, fn *ssa.Function, errv ssa.Value) string {
+	tests := 0
+	for _, b := range fn.Blocks {
+		v, nilSucc, ok := nilTest(b.Instrs[len(b.Instrs)-1])
+		if !ok || v != errv {
+			continue
+		}
+		tests++
+		nn := b.Succs[1-nilSucc]
+		if len(nn.Preds) != 1 {
+			return "the failure branch of the test at " + p.Pos(branchPos(b)) + " is shared with the success path"
+		}
+		for blk := range reachableBlocks([]*ssa.BasicBlock{nn}, nil) {
+			if blk != nn && !nn.Dominates(blk) {
+				return "after the failure found at " + p.Pos(branchPos(b)) + " execution continues at " + p.Pos(blockPos(blk)) + " as if the call had succeeded"
+			}
+			if ret, ok := blk.Instrs[len(blk.Instrs)-1].(*ssa.Return); ok {
+				if len(ret.Results) == 0 || isNilConst(returnedValue(ret, len(ret.Results)-1)) {
+					return "the failure found at " + p.Pos(branchPos(b)) + " ends in the return at " + p.Pos(ret.Pos()) + " without an error"
+				}
+			}
+		}
+	}
+	if tests == 0 {
+		return "the error is never tested"
+	}
+	return ""
+}
+
+// returnedValue: result i of a return. In a function with deferred calls go/ssa keeps the results in local variables:
+// the return then loads what the last store on the way to it wrote, which is looked for in the return's block and up
+// the chain of its single predecessors.
+func returnedValue(ret *ssa.Return, i int) ssa.Value {
+	r := ret.Results[i]
+	ld, ok := r.(*ssa.UnOp)
+	if !ok || ld.Op != token.MUL {
+		return r
+	}
+	al, ok := ld.X.(*ssa.Alloc)
+	if !ok {
+		return r
+	}
+	b := ret.Block()
+	upto := len(b.Instrs)
+	for n := 0; n < 16; n++ {
+		for k := upto - 1; k >= 0; k-- {
+			if st, ok := b.Instrs[k].(*ssa.Store); ok && st.Addr == ssa.Value(al) {
+				return st.Val
+			}
+		}
+		if len(b.Preds) != 1 {
+			return r
+		}
+		b = b.Preds[0]
+		upto = len(b.Instrs)
+	}
+	return r
+}
